@@ -1,12 +1,15 @@
 /-
 C20 — ValueMapping implements the DSP0004 ValueMap/Values semantics.
 ONLY property theorems, non-vacuity examples and witnesses; helper lemmas are in
-Proofs/Lemmas/{IntLit,ValueMap,ValueMap2,ValueMap3,ValueMap4}.lean.  The model (Model/ValueMap.lean) mirrors
+Proofs/Lemmas/{IntLit,ValueMap,ValueMap2,ValueMap3,ValueMap4,ValueMap5,ValueMap6,ValueMapApi}.lean.  The model (Model/ValueMap.lean) mirrors
 pywbem/_valuemapping.py after the fix: commits of C20; `Spec` is the short reading of the property
 statement (parse every entry, resolve open ends against the neighbours' closed ends and the type
 limits, `claims` = exact entry, else first enclosing range, else unclaimed).
 -/
 import Proofs.Lemmas.ValueMap4
+import Proofs.Lemmas.ValueMapApi
+import Proofs.Lemmas.ValueMap5
+import Proofs.Lemmas.ValueMap6
 
 namespace C20
 open Pywbem.Proto Pywbem.Model.IntLit Pywbem.Model.IntLit.Dsp0004 Pywbem.Model.ValueMap Pywbem.Model.ValueMap.Spec
@@ -326,6 +329,32 @@ theorem C20_intlit_complete_fails_at : ¬ (∀ s v, IsIntegerValue s v → integ
   rw [intlit_octal_zero_witness.2.1] at this
   cases this
 
+/-- **Decision procedure ⇔ grammar** (no exception): `Dsp0004.parse`, a regular-expression-free recogniser built
+    from the same per-notation bodies as pywbem's (only the octal digit class differs), accepts exactly the
+    strings of the DSP0004 integerValue grammar, with the grammar's value. -/
+theorem C20_dsp0004_parse_iff_grammar (s : Str) (v : Int) : parse s = some v ↔ IsIntegerValue s v :=
+  parse_iff s v
+
+/-- the grammar assigns at most one value to a string (binary/octal/decimal/hex readings never conflict) -/
+theorem C20_dsp0004_grammar_unambiguous (s : Str) (v w : Int) (h1 : IsIntegerValue s v) (h2 : IsIntegerValue s w) :
+    v = w :=
+  isIntegerValue_unique h1 h2
+
+/-- **pywbem's recogniser = the decision procedure, except exactly on the class of C20-KF1**, where it answers
+    "no literal" although the grammar has a value. -/
+theorem C20_intlit_eq_parse_except_octal_zero (s : Str) :
+    (¬ OctalWithZeroDigit s → integerValueToInt s = parse s) ∧
+    (OctalWithZeroDigit s → integerValueToInt s = none ∧ ∃ v, parse s = some v) := by
+  constructor
+  · intro hk
+    cases hp : parse s with
+    | some v => exact intlit_complete_partial (parse_sound hp) hk
+    | none =>
+      cases hi : integerValueToInt s with
+      | none => rfl
+      | some v => rw [parse_complete (intlit_sound hi)] at hp; cases hp
+  · exact intlit_none_of_octalZero
+
 /-- non-vacuity of the hypothesis: a literal outside the excluded class, one inside -/
 example : ¬ OctalWithZeroDigit ['0', '1', '7'] := by
   rintro ⟨sg, ds, h1, _, _, h4⟩
@@ -372,6 +401,399 @@ theorem C20_createQ_null_value_leaks_fails_at :
   intro h
   have := h ⟨"uint8", some none, none⟩ none .typeError (by decide)
   simp at this
+
+
+/-! ### the factory methods for_property / for_method / for_parameter (Model/ValueMapApi.lean) -/
+section Factory
+open Pywbem.Model.ValueMap.Api
+
+/-- **Contract of the three factory methods**: an exception of the connection's GetClass passes through
+    unchanged; a property / method / parameter name that is not in the class (compared case-insensitively)
+    is KeyError; otherwise the result is `_create_for_element` on exactly that element — the property or
+    parameter with its `type`, the method with its `return_type` and its own qualifiers. -/
+theorem C20_factory_contract (gc : Except PyExc ClassG) (n n2 : Str) (vd : Option Str) :
+    (∀ x, gc = .error x →
+        forProperty gc n vd = .error x ∧ forMethod gc n vd = .error x ∧ forParameter gc n n2 vd = .error x) ∧
+    (∀ c, gc = .ok c →
+        forProperty gc n vd = (match ncGet c.props n with
+                               | none => .error .keyError
+                               | some el => createG el vd) ∧
+        forMethod gc n vd = (match ncGet c.methods n with
+                             | none => .error .keyError
+                             | some m => createG m.ret vd) ∧
+        forParameter gc n n2 vd = (match ncGet c.methods n with
+                                   | none => .error .keyError
+                                   | some m => match ncGet m.params n2 with
+                                     | none => .error .keyError
+                                     | some el => createG el vd)) := by
+  constructor
+  · intro x h; subst h; exact ⟨rfl, rfl, rfl⟩
+  · intro c h; subst h; exact ⟨rfl, rfl, rfl⟩
+
+/-- element names are looked up case-insensitively -/
+theorem C20_factory_names_case_insensitive (gc : Except PyExc ClassG) (n n' m m' : Str) (vd : Option Str)
+    (hn : fold n = fold n') (hm : fold m = fold m') :
+    forProperty gc n vd = forProperty gc n' vd ∧ forMethod gc n vd = forMethod gc n' vd ∧
+    forParameter gc n m vd = forParameter gc n' m' vd := by
+  cases gc with
+  | error x => exact ⟨rfl, rfl, rfl⟩
+  | ok c =>
+    refine ⟨?_, ?_, ?_⟩
+    · simp only [forProperty, ncGet_congr c.props hn]
+    · simp only [forMethod, ncGet_congr c.methods hn]
+    · simp only [forParameter, ncGet_congr c.methods hn]
+      cases ncGet c.methods n' with
+      | none => rfl
+      | some mm => simp only [ncGet_congr mm.params hm]
+
+/-- the Values / ValueMap qualifiers are found whatever the case of their names in the class -/
+theorem C20_qualifier_names_case_insensitive (e : ElemG) (f : Str → Str) (hf : ∀ k, fold (f k) = fold k)
+    (vd : Option Str) :
+    createG ⟨e.typ, e.quals.map (fun p => (f p.1, p.2))⟩ vd = createG e vd := by
+  simp only [createG, ElemG.toQ, ncGet_rename e.quals f hf]
+
+/-- **frame**: other properties of the class (with another name), all methods and all parameters are
+    irrelevant for for_property — wherever the other property is declared -/
+theorem C20_for_property_frame (ps1 ps2 : List (Str × ElemG)) (k0 : Str) (e0 : ElemG) (ms ms' : List (Str × MethodG))
+    (n : Str) (vd : Option Str) (h : fold k0 ≠ fold n) :
+    forProperty (.ok ⟨ps1 ++ (k0, e0) :: ps2, ms⟩) n vd = forProperty (.ok ⟨ps1 ++ ps2, ms'⟩) n vd := by
+  simp only [forProperty, ncGet_insert ps1 ps2 k0 e0 n h]
+
+/-- the same for parameters of the method and for other methods -/
+theorem C20_for_parameter_frame (ms1 ms2 : List (Str × MethodG)) (k0 : Str) (m0 : MethodG) (ps ps' : List (Str × ElemG))
+    (n n2 : Str) (vd : Option Str) (h : fold k0 ≠ fold n) :
+    forParameter (.ok ⟨ps, ms1 ++ (k0, m0) :: ms2⟩) n n2 vd = forParameter (.ok ⟨ps', ms1 ++ ms2⟩) n n2 vd ∧
+    forMethod (.ok ⟨ps, ms1 ++ (k0, m0) :: ms2⟩) n vd = forMethod (.ok ⟨ps', ms1 ++ ms2⟩) n vd := by
+  simp only [forParameter, forMethod, ncGet_insert ms1 ms2 k0 m0 n h, and_self]
+
+/-- **end to end**: whenever for_property succeeds on a class, the property exists (case-insensitively), carries a
+    non-NULL Values qualifier (under any capitalisation) and for every integer v tovalues(v) is what the short
+    spec says for that property's Values / ValueMap arrays, type and values_default. -/
+theorem C20_for_property_end_to_end (c : ClassG) (n : Str) (vd : Option Str) (vm : VM)
+    (h : forProperty (.ok c) n vd = .ok vm) :
+    ∃ el vals, ncGet c.props n = some el ∧
+      (ncGet el.quals kValues).map QVal.items = some (some vals) ∧
+      (ncGet el.quals kValueMap).map QVal.items ≠ some none ∧
+      ∃ ents values,
+        specCreate ⟨el.typ, some vals, ((ncGet el.quals kValueMap).map QVal.items).bind id⟩ vd = .ok (ents, values) ∧
+        ents.length = values.length ∧ ∀ v : Int, tovalues vm v = specToValues ents values v := by
+  simp only [forProperty] at h
+  cases hel : ncGet c.props n with
+  | none => simp [hel] at h
+  | some el =>
+    simp only [hel, createG, createQ, ElemG.toQ] at h
+    cases hT : intTypeOf el.typ with
+    | none => simp [hT] at h
+    | some T =>
+      simp only [hT] at h
+      cases hv : (ncGet el.quals kValues).map QVal.items with
+      | none => simp [hv] at h
+      | some vo =>
+        cases vo with
+        | none => simp [hv] at h
+        | some vals =>
+          simp only [hv] at h
+          cases hm : (ncGet el.quals kValueMap).map QVal.items with
+          | none =>
+            simp only [hm] at h
+            obtain ⟨ents, values, h1, h2, h3⟩ := C20_tovalues_is_spec _ vd vm h
+            exact ⟨el, vals, rfl, hv, by rw [hm]; simp, ents, values, by rw [hm]; exact h1, h2, h3⟩
+          | some mo =>
+            cases mo with
+            | none => simp [hm] at h
+            | some m =>
+              simp only [hm] at h
+              obtain ⟨ents, values, h1, h2, h3⟩ := C20_tovalues_is_spec _ vd vm h
+              exact ⟨el, vals, rfl, hv, by rw [hm]; simp, ents, values, by rw [hm]; exact h1, h2, h3⟩
+
+/-- `createG` only lets ModelError / ValueError escape — partial: for elements whose Values / ValueMap qualifiers
+    are not NULL-valued (C20-KF2).  Full statement (fails: `C20_createQ_null_value_leaks_fails_at`): no `hn`. -/
+theorem C20_factory_only_documented_errors_partial (gc : Except PyExc ClassG) (n n2 : Str) (vd : Option Str) (x : PyExc)
+    (hn : ∀ c, gc = .ok c → ∀ el : ElemG,
+        (el ∈ c.props.map (·.2) ∨ ∃ m ∈ c.methods.map (·.2), el = m.ret ∨ el ∈ m.params.map (·.2)) →
+        el.toQ.values ≠ some none ∧ el.toQ.valuemap ≠ some none)
+    (h : forProperty gc n vd = .error x ∨ forMethod gc n vd = .error x ∨ forParameter gc n n2 vd = .error x) :
+    gc = .error x ∨ x = .keyError ∨ x = .modelError ∨ x = .valueError := by
+  have hmem : ∀ {α} (d : List (Str × α)) (k : Str) (v : α), ncGet d k = some v → v ∈ d.map (·.2) := by
+    intro α d k v hg
+    unfold ncGet at hg
+    cases hf : d.find? (fun p => fold p.1 = fold k) with
+    | none => simp [hf] at hg
+    | some p =>
+      simp [hf] at hg; subst hg
+      exact List.mem_map.mpr ⟨p, List.mem_of_find?_eq_some hf, rfl⟩
+  have hcreate : ∀ el : ElemG, el.toQ.values ≠ some none ∧ el.toQ.valuemap ≠ some none →
+      createG el vd = .error x → x = .modelError ∨ x = .valueError :=
+    fun el hq hc => C20_createQ_only_model_or_value_error_partial el.toQ vd hq x hc
+  cases gc with
+  | error y =>
+    rcases h with h | h | h <;> (simp [forProperty, forMethod, forParameter] at h; left; rw [h])
+  | ok c =>
+    right
+    have hn' := hn c rfl
+    rcases h with h | h | h
+    · simp only [forProperty] at h
+      cases hg : ncGet c.props n with
+      | none => simp [hg] at h; exact Or.inl h.symm
+      | some el =>
+        simp only [hg] at h
+        exact Or.inr (hcreate el (hn' el (Or.inl (hmem _ _ _ hg))) h)
+    · simp only [forMethod] at h
+      cases hg : ncGet c.methods n with
+      | none => simp [hg] at h; exact Or.inl h.symm
+      | some m =>
+        simp only [hg] at h
+        exact Or.inr (hcreate m.ret (hn' m.ret (Or.inr ⟨m, hmem _ _ _ hg, Or.inl rfl⟩)) h)
+    · simp only [forParameter] at h
+      cases hg : ncGet c.methods n with
+      | none => simp [hg] at h; exact Or.inl h.symm
+      | some m =>
+        simp only [hg] at h
+        cases hg2 : ncGet m.params n2 with
+        | none => simp [hg2] at h; exact Or.inl h.symm
+        | some el =>
+          simp only [hg2] at h
+          exact Or.inr (hcreate el (hn' el (Or.inr ⟨m, hmem _ _ _ hg, Or.inr (hmem _ _ _ hg2)⟩)) h)
+
+/-- non-vacuity: a class with two properties and a method; lookups in other case, a missing name, a failing GetClass -/
+example :
+    let vq : List (Str × QVal) := [("VALUEMAP".toList, .arr ["1".toList, "2..".toList]), ("values".toList, .arr ["a".toList, "b".toList])]
+    let c : ClassG := ⟨[("Q".toList, ⟨"string", []⟩), ("P".toList, ⟨"uint8", vq⟩)], [("M".toList, ⟨⟨"sint8", vq⟩, [("A".toList, ⟨"uint16", vq⟩)]⟩)]⟩
+    (match forProperty (.ok c) "p".toList none with | .ok vm => decide (tovalues vm 200 = .ok "b".toList) | _ => false) = true ∧
+    (match forMethod (.ok c) "m".toList none with | .ok vm => decide (tovalues vm 127 = .ok "b".toList ∧ tovalues vm 128 = .error .valueError) | _ => false) = true ∧
+    (match forParameter (.ok c) "M".toList "a".toList none with | .ok vm => decide (tovalues vm 65535 = .ok "b".toList) | _ => false) = true ∧
+    forProperty (.ok c) "R".toList none = .error .keyError ∧ forProperty (.ok c) "Q".toList none = .error .modelError ∧
+    forParameter (.ok c) "M".toList "B".toList none = .error .keyError ∧
+    forProperty (.error (.cimError 6)) "P".toList none = .error (.cimError 6) := by
+  decide +kernel
+
+end Factory
+
+/-! ### argument forms of tovalues() / tobinary() -/
+section Arguments
+open Pywbem.Model.ValueMap.Api
+
+/-- **tovalues(None) is None; a list or tuple is translated item by item** (result list of the same length, item i
+    = the single-value translation of item i), and the call fails exactly with the exception of the first item
+    whose single-value translation fails. -/
+theorem C20_tovalues_argument_forms (vm : VM) :
+    tovaluesArg vm (.scalar .none) = .ok .none ∧
+    (∀ xs ss, tovaluesArg vm (.list xs) = .ok (.list ss) ↔
+        ss.length = xs.length ∧ ∀ (i : Nat) x, xs[i]? = some x → ∃ s, ss[i]? = some s ∧ tovaluesSingle vm x = .ok s) ∧
+    (∀ xs e, tovaluesArg vm (.list xs) = .error e ↔
+        ∃ pre x post, xs = pre ++ x :: post ∧ (∀ y ∈ pre, ∃ s, tovaluesSingle vm y = .ok s) ∧
+          tovaluesSingle vm x = .error e) := by
+  refine ⟨rfl, ?_, ?_⟩
+  · intro xs ss
+    rw [← tovaluesList_ok_iff]
+    simp only [tovaluesArg]
+    cases tovaluesList vm xs <;> simp
+  · intro xs e
+    rw [← tovaluesList_error_iff]
+    simp only [tovaluesArg]
+    cases tovaluesList vm xs <;> simp
+
+/-- **int, CIMInt and bool arguments are the integer they denote; everything else is TypeError**
+    (None inside a list, str, float, a nested list) — and tobinary accepts only str. -/
+theorem C20_argument_types (vm : VM) (v : Int) (b : Bool) (s : Str) :
+    tovaluesSingle vm (.int v) = tovalues vm v ∧ tovaluesSingle vm (.cimint v) = tovalues vm v ∧
+    tovaluesSingle vm (.bool b) = tovalues vm (if b then 1 else 0) ∧
+    tovaluesSingle vm .none = .error .typeError ∧ tovaluesSingle vm (.str s) = .error .typeError ∧
+    tovaluesSingle vm .other = .error .typeError ∧
+    tobinaryArg vm (.str s) = tobinary vm s ∧
+    (∀ x, (∀ t, x ≠ .str t) → tobinaryArg vm x = .error .typeError) := by
+  refine ⟨rfl, rfl, rfl, rfl, rfl, rfl, rfl, ?_⟩
+  intro x hx
+  cases x <;> first | rfl | exact absurd rfl (hx _)
+
+/-- only ValueError / TypeError escape from tovalues() and tobinary(), whatever is passed -/
+theorem C20_lookup_calls_only_value_or_type_error (vm : VM) (x : PyExc) :
+    (∀ a, tovaluesArg vm a = .error x → x = .valueError ∨ x = .typeError) ∧
+    (∀ a, tobinaryArg vm a = .error x → x = .valueError ∨ x = .typeError) := by
+  have hs : ∀ y, tovaluesSingle vm y = .error x → x = .valueError ∨ x = .typeError := by
+    intro y hy
+    cases y with
+    | int v => exact Or.inl ((C20_lookup_only_value_error vm x).1 v hy)
+    | cimint v => exact Or.inl ((C20_lookup_only_value_error vm x).1 v hy)
+    | bool b => exact Or.inl ((C20_lookup_only_value_error vm x).1 _ hy)
+    | none => simp [tovaluesSingle] at hy; exact Or.inr hy.symm
+    | str s => simp [tovaluesSingle] at hy; exact Or.inr hy.symm
+    | other => simp [tovaluesSingle] at hy; exact Or.inr hy.symm
+  constructor
+  · intro a h
+    cases a with
+    | scalar y =>
+      cases y with
+      | none => simp [tovaluesArg] at h
+      | int v => simp only [tovaluesArg] at h; cases h1 : tovaluesSingle vm (.int v) with
+        | error e => rw [h1] at h; simp at h; subst h; exact hs _ h1
+        | ok s => rw [h1] at h; simp at h
+      | cimint v => simp only [tovaluesArg] at h; cases h1 : tovaluesSingle vm (.cimint v) with
+        | error e => rw [h1] at h; simp at h; subst h; exact hs _ h1
+        | ok s => rw [h1] at h; simp at h
+      | bool b => simp only [tovaluesArg] at h; cases h1 : tovaluesSingle vm (.bool b) with
+        | error e => rw [h1] at h; simp at h; subst h; exact hs _ h1
+        | ok s => rw [h1] at h; simp at h
+      | str s => simp [tovaluesArg, tovaluesSingle] at h; exact Or.inr h.symm
+      | other => simp [tovaluesArg, tovaluesSingle] at h; exact Or.inr h.symm
+    | list xs =>
+      have : tovaluesList vm xs = .error x := by
+        simp only [tovaluesArg] at h
+        cases hl : tovaluesList vm xs with
+        | error e => rw [hl] at h; simp at h; rw [h]
+        | ok ss => rw [hl] at h; simp at h
+      obtain ⟨_, y, _, _, _, hy⟩ := (tovaluesList_error_iff vm xs x).mp this
+      exact hs y hy
+  · intro a h
+    cases a with
+    | str s => exact Or.inl ((C20_lookup_only_value_error vm x).2 s h)
+    | none => simp [tobinaryArg] at h; exact Or.inr h.symm
+    | int v => simp [tobinaryArg] at h; exact Or.inr h.symm
+    | cimint v => simp [tobinaryArg] at h; exact Or.inr h.symm
+    | bool b => simp [tobinaryArg] at h; exact Or.inr h.symm
+    | other => simp [tobinaryArg] at h; exact Or.inr h.symm
+
+end Arguments
+
+
+
+
+/-! ### NULL elements inside the ValueMap array (known finding C20-KF4) -/
+
+/-- the item-level construction (`createI`, items may be None) is `create` when no item is None, so every
+    theorem about `create` transfers -/
+theorem C20_createI_eq_create (typ : String) (vals vmap : List Str) (vd : Option Str) :
+    createI typ vals (vmap.map some) vd = create ⟨typ, some vals, some vmap⟩ vd :=
+  createI_eq_create typ vals vmap vd
+
+/-- **a ValueMap array with a NULL element is never accepted** (whatever the other entries, sizes, type, default) -/
+theorem C20_null_valuemap_element_never_constructs (typ : String) (vals : List Str) (vmap : List Item)
+    (vd : Option Str) (h : none ∈ vmap) (vm : VM) : createI typ vals vmap vd ≠ .ok vm :=
+  createI_none_fails typ vals vmap vd h vm
+
+/-- only ModelError / ValueError escape from the item-level construction — partial: arrays without NULL element.
+    Full statement (fails, next theorem): for every `vmap : List Item`. -/
+theorem C20_createI_only_model_or_value_error_partial (typ : String) (vals : List Str) (vmap : List Item)
+    (vd : Option Str) (hn : none ∉ vmap) (x : PyExc) (h : createI typ vals vmap vd = .error x) :
+    x = .modelError ∨ x = .valueError := by
+  have hv : ∀ l : List Item, none ∉ l → l = (l.filterMap id).map some := by
+    intro l
+    induction l with
+    | nil => intro _; rfl
+    | cons a t ih =>
+      intro hl
+      cases a with
+      | none => simp at hl
+      | some s =>
+        have ht : none ∉ t := by intro hm; exact hl (by simp [hm])
+        have := ih ht
+        simp only [List.filterMap_cons, id, List.map_cons]
+        rw [← this]
+  have hv := hv vmap hn
+  rw [hv, createI_eq_create] at h
+  exact C20_create_only_model_or_value_error _ vd x h
+
+/-- the rejection leaks TypeError (`re.match` on None) or AttributeError (`None.startswith`) -/
+theorem C20_null_valuemap_element_leaks_fails_at :
+    createI "uint8" ["a".toList, "b".toList] [none, some "1".toList] none = .error .typeError ∧
+    createI "uint8" ["a".toList, "b".toList] [some "1..".toList, none] none = .error .attributeError ∧
+    createI "uint8" ["a".toList, "b".toList] [some "x".toList, none] none = .error .modelError ∧
+    ¬ (∀ (typ : String) (vals : List Str) (vmap : List Item) (vd : Option Str) (x : PyExc),
+        createI typ vals vmap vd = .error x → x = .modelError ∨ x = .valueError) := by
+  refine ⟨by decide +kernel, by decide +kernel, by decide +kernel, ?_⟩
+  intro h
+  have := h "uint8" ["a".toList, "b".toList] [none, some "1".toList] none .typeError (by decide +kernel)
+  simp at this
+
+/-! ### the stack budget of the neighbour recursion (known finding C20-KF3) -/
+
+/-- **length+1 frames are all `_values_tuple` ever needs**: under any budget of at least (number of ValueMap
+    entries)+1 frames the construction is exactly `create` (for which all theorems above hold). -/
+theorem C20_budget_length_plus_one_suffices (budget : Nat) (e : Elem) (vd : Option Str)
+    (hb : (effMap e.valuemap (e.values.getD []).length).length + 1 ≤ budget) :
+    createB budget e vd = create e vd :=
+  createB_eq_create budget e vd hb
+
+/-- more stack never changes a finished `_values_tuple` result -/
+theorem C20_values_tuple_budget_monotone (T : IntType) (vmap : List Str) (f k i : Nat)
+    (h : valuesTuple T vmap f i ≠ .error .recursionError) :
+    valuesTuple T vmap (f + k) i = valuesTuple T vmap f i :=
+  valuesTuple_ge_stable T vmap f i h k
+
+/-- only ModelError / ValueError escape under a budget — partial: for budgets of at least length+1 frames.
+    Full statement (fails, next theorem; CPython's budget is what is left of its recursion limit, so a chain
+    of ~1000 consecutive open ranges raises RecursionError): no hypothesis `hb`. -/
+theorem C20_createB_only_model_or_value_error_partial (budget : Nat) (e : Elem) (vd : Option Str)
+    (hb : (effMap e.valuemap (e.values.getD []).length).length + 1 ≤ budget) (x : PyExc)
+    (h : createB budget e vd = .error x) : x = .modelError ∨ x = .valueError := by
+  rw [createB_eq_create budget e vd hb] at h
+  exact C20_create_only_model_or_value_error e vd x h
+
+/-- a chain of four left-open ranges under three frames: RecursionError; under five frames: constructed -/
+def chain4 : Elem := ⟨"uint8", some ["a".toList, "b".toList, "c".toList, "d".toList],
+  some ["..1".toList, "..2".toList, "..3".toList, "..4".toList]⟩
+
+theorem C20_small_budget_recursion_error_fails_at :
+    ¬ (∀ (budget : Nat) (e : Elem) (vd : Option Str) (x : PyExc),
+        createB budget e vd = .error x → x = .modelError ∨ x = .valueError) := by
+  intro h
+  have := h 3 chain4 none .recursionError (by decide +kernel)
+  simp at this
+
+example : (match createB 5 chain4 none with | .ok vm => decide (tovalues vm 3 = .ok "c".toList) | .error _ => false) = true := by
+  decide +kernel
+
+/-! ### type limits of the 8 CIM integer types -/
+
+/-- every CIM integer type name is found with its limits, other CIM type names are not integer types -/
+theorem C20_int_type_lookup :
+    intTypeOf "uint8" = some ⟨0, 255⟩ ∧ intTypeOf "sint8" = some ⟨-128, 127⟩ ∧
+    intTypeOf "uint16" = some ⟨0, 65535⟩ ∧ intTypeOf "sint16" = some ⟨-32768, 32767⟩ ∧
+    intTypeOf "uint32" = some ⟨0, 4294967295⟩ ∧ intTypeOf "sint32" = some ⟨-2147483648, 2147483647⟩ ∧
+    intTypeOf "uint64" = some ⟨0, 18446744073709551615⟩ ∧
+    intTypeOf "sint64" = some ⟨-9223372036854775808, 9223372036854775807⟩ ∧
+    (∀ t ∈ ["string", "boolean", "real32", "real64", "datetime", "char16", "reference", "Uint8", ""],
+      intTypeOf t = none) := by
+  decide +kernel
+
+/-- **Open ends at the array border resolve against the type limits**: in every successfully resolved
+    ValueMap, a first entry with an open lower end starts at the type's minvalue and a last entry with an
+    open upper end stops at the type's maxvalue (for any type record, hence for all 8 types). -/
+theorem C20_border_open_ends_use_type_limits (T : IntType) (raws : List Raw) (ents : List Ent)
+    (h : resolve T raws = some ents) :
+    (∀ hi, raws[0]? = some (.range none hi) → ∃ h', ents[0]? = some (some (T.minv, h'))) ∧
+    (∀ lo, raws[raws.length - 1]? = some (.range lo none) →
+        ∃ l', ents[raws.length - 1]? = some (some (l', T.maxv))) := by
+  obtain ⟨_, hpt⟩ := (resolveFrom_some_iff T raws raws 0 ents).mp h
+  constructor
+  · intro hi h0
+    obtain ⟨e, he, hr⟩ := hpt 0 _ h0
+    obtain ⟨lo, hi', rfl, h1, _⟩ := resolveAt_some hr (by simp)
+    simp [specLo] at h1
+    exact ⟨hi', by rw [he, h1]⟩
+  · intro lo hl
+    obtain ⟨e, he, hr⟩ := hpt _ _ hl
+    obtain ⟨lo', hi', rfl, _, h2⟩ := resolveAt_some hr (by simp)
+    have hpos : 0 < raws.length := by
+      have := (List.getElem?_eq_some_iff.mp hl).1; omega
+    simp only [Nat.zero_add, specHi, show raws.length - 1 + 1 = raws.length by omega, if_true] at h2
+    simp at h2
+    exact ⟨lo', by rw [he, h2]⟩
+
+/-- exhaustive instance on an 8-bit type: `{"..-1", "0", "1.."}` on sint8 — every one of the 256 values and
+    the two neighbours outside the type -/
+theorem C20_sint8_sign_example_exhaustive :
+    (match create ⟨"sint8", some ["neg".toList, "zero".toList, "pos".toList],
+                   some ["..-1".toList, "0".toList, "1..".toList]⟩ none with
+     | .error _ => false
+     | .ok vm =>
+       (List.range 256).all (fun n =>
+         let v : Int := Int.ofNat n - 128
+         decide (tovalues vm v = .ok (if v < 0 then "neg".toList else if v = 0 then "zero".toList else "pos".toList))) &&
+       decide (tovalues vm (-129) = .error .valueError) && decide (tovalues vm 128 = .error .valueError) &&
+       decide (tobinary vm "neg".toList = .ok (.range (-128) (-1))) &&
+       decide (tobinary vm "pos".toList = .ok (.range 1 127))) = true := by
+  decide +kernel
 
 /-- the integer type limits regenerated from pywbem/_cim_types.py are the DSP0004 ones -/
 theorem C20_int_type_limits :
